@@ -228,6 +228,9 @@ def decide(ob, ctx, path):
                 res["reach"] = rv
                 if rv == "unsat":
                     res["status"] = "vacuous"
+                    if ob.extra.get("vacuous_ok"):
+                        res["status"] = "unsat"
+                        res["vacuous_by_design"] = True
                 elif rv != "sat":
                     res["status"] = "unknown"
             elif verdict == "sat":
